@@ -74,7 +74,8 @@ func searchFieldName(p *thrift.BinaryProtocol, id string, f *thrift.FieldDescrip
 	for {
 		_, t, i, err := p.ReadFieldBegin()
 		if err != nil {
-			return 0, start, wrapError(meta.ErrRead, "", err)
+			// NOTICE: GetByPath() expects a Node as the error, like the other search functions return
+			return 0, start, errNode(meta.ErrRead, "", err)
 		}
 		if t == thrift.STOP {
 			// not found: return the position of this struct's STOP byte, where a new field can be inserted
@@ -89,7 +90,7 @@ func searchFieldName(p *thrift.BinaryProtocol, id string, f *thrift.FieldDescrip
 			break
 		}
 		if err := p.Skip(t, UseNativeSkipForGet); err != nil {
-			return thrift.STRUCT, start, wrapError(meta.ErrRead, "", err)
+			return thrift.STRUCT, start, errNode(meta.ErrRead, "", err)
 		}
 	}
 	return
